@@ -80,7 +80,7 @@ class C07(Check):
     chunk = 1000
     matchers = {'uuid_ids': uuid_ids}
     rule = (
-        "[drawn in addition since rounds 13-15: client error_cls {default, plain subclass, get_error_cls override, own-registry hierarchy}; one batch object filled by add / notify and finished through its proxy] "
+        "[round 16: remote method names equal to public names of the client objects (client, batch, send, notify, proxy, strict, method)] [drawn in addition since rounds 13-15: client error_cls {default, plain subclass, get_error_cls override, own-registry hierarchy}; one batch object filled by add / notify and finished through its proxy] "
         "cases: call plans of 1..4 logical calls (method of the 15-method registry or an unknown one, positional list or named mapping "
         "incl. non-binding shapes, call or notification, pooled JSON values as arguments) executed through a notation {call, __call__, "
         "proxy attribute, hand-built Request + send, notify; batch add/notify, batch(...)(...), batch[...], batch.proxy, hand-built "
